@@ -236,6 +236,7 @@ func (m *monitor) run(line string) string {
 			}
 		}
 	}
+	isVM := strings.HasPrefix(t[0], "vm")
 	res := hx.Guard(func() string { return m.ip.exec(line) })
 	m.script = append(m.script, line)
 	w = m.ip.w
@@ -304,6 +305,19 @@ func (m *monitor) run(line string) string {
 		m.dirty = false
 		m.blockNo++
 	}
+	if isVM {
+		// the opcodes change stakes outside the transaction ledger: take the observed stakes as the new
+		// ledger (O2 is not the oracle for them), conservation (O5) is.
+		m.dirty = true
+		for _, id := range w.ids {
+			k := hx.Hex(id)
+			var stk uint64
+			if r := o.byID[k]; r != nil {
+				stk = r.stake
+			}
+			m.ledger[k] = new(big.Int).SetUint64(stk)
+		}
+	}
 	if m.prev == nil {
 		m.prev = o
 		return res
@@ -340,7 +354,9 @@ func (m *monitor) run(line string) string {
 	}
 	// O5
 	m.checksBy["O5"]++
-	if prev.wealth().Cmp(o.wealth()) != 0 {
+	if prev.wealth().Cmp(o.wealth()) != 0 && t[0] == "vmunstake" && new(big.Int).Mod(u(t[3]), e18big).Sign() != 0 && !m.crafted {
+		m.report("unstake-opcode-escrows-untruncated-amount", fmt.Sprintf("%s => %s: liquid+staked+escrow+pending %s -> %s", line, res, prev.wealth(), o.wealth()))
+	} else if prev.wealth().Cmp(o.wealth()) != 0 {
 		m.report(m.classify("conservation", lost && res == "ok", false), fmt.Sprintf("%s => %s: liquid+staked+escrow+pending %s -> %s", line, res, prev.wealth(), o.wealth()))
 	}
 	// O2
@@ -435,6 +451,9 @@ func witnesses() map[string][]string {
 			"apply "+a1+" 11 0 400 - 01 01", "apply "+a1+" 22 0 400 - 01 01", "endblock 101"),
 		"id-hash-collision": append(pre("11,"+hid),
 			"apply "+a1+" 11 1 2000 - 01 01", "endblock 101", "apply "+a2+" "+hid+" 1 2000 - 01 01", "endblock 102"),
+		"unstake-opcode-escrows-untruncated-amount": append(pre("11"),
+			"apply "+a1+" 11 1 2500 "+a2+" 01 01", "endblock 101",
+			"vmunstake "+a1+" "+a2+" 1500000000000000000", "vmunstake "+a1+" "+a2+" 900000000000000000", "endblock 102"),
 		"refund-lost-second-account": append(pre("11,22"),
 			"apply "+a1+" 11 0 800 - 01 01", "apply "+a2+" 22 0 800 - 01 01", "endblock 101",
 			"refund "+a1+" 11 100", "refund "+a2+" 22 100", "endblock 102"),
